@@ -159,19 +159,29 @@ for _P in ("C18",):
         c.canary("canary_both", z3.And(z3.Not(d.nan), post.f == pre.f, lr.z != 0))
 
 
-def kernel_state(c, lr_pos, lr_neg, tc_pos, tc_neg):
-    nb = lambda: Model(lambda it: [], "named_buffers")  # noqa: E731
+def kernel_state(c, lr_pos, lr_neg, tc_pos, tc_neg, as_tensors=False):
+    """per-cell state of the kernel trainers.  Kernel hyper-parameters may be given as plain numbers (kept in the
+    `*_kwargs` dicts) or as TENSORS (kept as buffers of the `*_tensor_kwargs` modules, merged in at call time): each
+    side must receive its own"""
     from pyvc.interp import Obj
 
-    def tk():
+    def tk(items):
         o = Obj(None, "tensor_kwargs")
-        o.fields["named_buffers"] = nb()
+        o.fields["named_buffers"] = Model(lambda it, items=items: list(items), "named_buffers")
         return o
 
+    tt = lambda v: T(v.z, "float", None, None, None)  # noqa: E731
+    if as_tensors:
+        post_kw, pre_kw = {}, {}
+        post_t = [("learning_rate", tt(lr_pos)), ("time_constant", tt(tc_pos))]
+        pre_t = [("learning_rate", tt(lr_neg)), ("time_constant", tt(tc_neg))]
+    else:
+        post_kw, pre_kw = dict(learning_rate=lr_pos, time_constant=tc_pos), dict(learning_rate=lr_neg, time_constant=tc_neg)
+        post_t, pre_t = [], []
     return dict(
         kernel_post=c.function(SK, "exp_stdp_post_kernel"), kernel_pre=c.function(SK, "exp_stdp_pre_kernel"),
-        kernel_post_kwargs=dict(learning_rate=lr_pos, time_constant=tc_pos), kernel_pre_kwargs=dict(learning_rate=lr_neg, time_constant=tc_neg),
-        kernel_post_tensor_kwargs=tk(), kernel_pre_tensor_kwargs=tk(), delayed=False, tolerance=0.0,
+        kernel_post_kwargs=post_kw, kernel_pre_kwargs=pre_kw,
+        kernel_post_tensor_kwargs=tk(post_t), kernel_pre_tensor_kwargs=tk(pre_t), delayed=False, tolerance=0.0,
     )
 
 
@@ -182,7 +192,8 @@ def _mk_kernel(cls, param, delay_learning):
             lr_pos, lr_neg, tc_pos, tc_neg = c.real("lr_pos"), c.real("lr_neg"), c.real("tc_pos"), c.real("tc_neg")
             c.require(tc_pos > 0, tc_neg > 0)
             tpre, tpost, mons = event_monitors(c)
-            env = Env(c, mons, kernel_state(c, lr_pos, lr_neg, tc_pos, tc_neg), delayed_conn=(cls != "KernelSTDP"))
+            as_tensors = c.choice("kernel_hyperparameters", ["numbers", "tensors"]) == "tensors"
+            env = Env(c, mons, kernel_state(c, lr_pos, lr_neg, tc_pos, tc_neg, as_tensors), delayed_conn=(cls != "KernelSTDP"))
             out = c.outcome(c.function(KS, f"{cls}.forward"), env.trainer)
             c.expect_return(out)
             pos, neg = env.captured(param)
@@ -229,6 +240,7 @@ ASSUMPTIONS = [
 ]
 
 MUTANTS = [
+    dict(file=KS, func="KernelSTDP.forward", old="                    | {k: v for k, v in state.kernel_pre_tensor_kwargs.named_buffers()}", new="                    | {k: v for k, v in state.kernel_post_tensor_kwargs.named_buffers()}", contracts=["KernelSTDP.forward"], name="seed C18g: tensor-valued hyper-parameters of the presynaptic kernel taken from the postsynaptic side"),
     dict(file=D3, func="DelayAdjustedMSTDP.forward", old="                    state.batchreduce(dneg, 0) if dneg.numel() else None,", new="                    state.batchreduce(dneg, 0) if dpos.numel() else None,", contracts=["DelayAdjustedMSTDP.forward[tensor_signal]"], name="tensor reward: depressing part guarded by the emptiness of the potentiating group (seed C09e transplanted)"),
     dict(file=D3, func="DelayAdjustedMSTDP.forward", old="                    case (True, False):  # hebbian\n                        dpos = torch.cat((dpost_reg, dpre_inv), 0)\n                        dneg = torch.cat((dpost_inv, dpre_reg), 0)", new="                    case (True, False):  # hebbian\n                        dpos = torch.cat((dpost_reg, dpre_reg), 0)\n                        dneg = torch.cat((dpost_inv, dpre_inv), 0)", contracts=["DelayAdjustedMSTDP.forward[tensor_signal]"], name="tensor reward: hebbian mode routed like the potentiative one"),
     dict(file=D3, func="DelayAdjustedMSTDPD.forward", old="                signal_pos = torch.argwhere(signal >= 0).view(-1)", new="                signal_pos = torch.argwhere(signal < 0).view(-1)", contracts=["DelayAdjustedMSTDPD.forward[tensor_signal]"], name="tensor reward: the non-negative group selected by the wrong sign"),
